@@ -915,6 +915,7 @@ impl World {
             "objapi" => self.op_objapi(r, op),
             "failcommit" => self.op_failcommit(r, op),
             "faults" => self.op_faults(r, op["seed"].as_u64().unwrap()),
+            "longchain" => self.op_longchain(op["n"].as_u64().unwrap_or(20000) as u32),
             "foreign" => self.op_foreign(r, op["name"].as_str().unwrap(), op["bytes"].as_str().unwrap_or("00")),
             "failmeld" => self.op_failmeld(r, op["from"].as_u64().unwrap() as usize % self.reps.len(), op["fail"].as_array().map(|a| a.iter().map(|x| x.as_u64().unwrap() as usize).collect()).unwrap_or_default()),
             "replay_elsewhere" => self.op_replay_elsewhere(r, op["to"].as_u64().unwrap() as usize % self.reps.len()),
@@ -1845,6 +1846,55 @@ impl World {
         }
         for (p, w) in fails {
             self.fail(p, w);
+        }
+    }
+
+    /// C08 / C02: a replica with a LONG linear history (an editor that commits on every save reaches tens of thousands
+    /// of blocks) must still open, refresh and travel in time: nothing may recurse once per block (a stack overflow
+    /// aborts the whole process).  The chain is byte for byte what `commit` writes when one object is alternately
+    /// deleted and re-created empty; built directly in a store of its own, opened with the default worker pool.
+    fn op_longchain(&mut self, n: u32) {
+        let st = SimStore::new();
+        let m = match Melda::new(st.dyn_adapter()) {
+            Ok(m) => m,
+            Err(_) => return,
+        };
+        let _ = m.create_object("x", json!({"v": 1}).as_object().unwrap().clone());
+        let heads = match m.commit(None) {
+            Ok(Some(h)) => h,
+            _ => return,
+        };
+        let mut block = heads.iter().next().unwrap().to_string();
+        let mut rev = m.get_winner("x").unwrap_or_default();
+        drop(m);
+        for i in 2..=n {
+            let dg = if i % 2 == 0 { "d" } else { "e" };
+            let text = format!("{{\"c\":[[\"x\",\"{}\",\"{}\"]],\"p\":[\"{}\"]}}", rev, dg, block);
+            let id = format!("{}-{}", i, digest_string(&text));
+            st.put_raw(&format!("{}.delta", id), text.as_bytes().to_vec());
+            rev = format!("{}-{}_{}", i, dg, &digest_string(&rev)[..7]);
+            block = id;
+        }
+        self.stat("long_chain");
+        let opened = catch_unwind(AssertUnwindSafe(|| Melda::new(st.dyn_adapter())));
+        match opened {
+            Err(_) => self.fail("C08", format!("opening a replica with a linear history of {} blocks aborted", n)),
+            Ok(Err(e)) => self.fail("C08", format!("a replica with a linear history of {} blocks cannot be opened: {}", n, msg_prefix(&e.to_string()))),
+            Ok(Ok(mut m)) => {
+                let heads: Vec<String> = m.get_anchors().iter().map(|a| a.to_string()).collect();
+                if heads != vec![block.clone()] || m.get_winner("x").ok() != Some(rev.clone()) {
+                    self.fail("C02", format!("a linear history of {} causally complete blocks is not applied entirely: heads {:?}", n, heads));
+                    self.fail("C08", format!("a linear history of {} causally complete blocks is not applied entirely: heads {:?}", n, heads));
+                }
+                // refresh with nothing new, and time travel to the middle of the chain
+                if catch_unwind(AssertUnwindSafe(|| m.refresh().is_ok())).unwrap_or(false) == false {
+                    self.fail("C08", format!("refresh of a replica with {} blocks failed or aborted", n));
+                }
+                let mid: BTreeSet<DeltaId> = m.get_anchors();
+                if catch_unwind(AssertUnwindSafe(|| m.reload_until(&mid).is_ok())).unwrap_or(false) == false {
+                    self.fail("C08", format!("reload_until to the heads of a replica with {} blocks failed or aborted", n));
+                }
+            }
         }
     }
 
